@@ -648,7 +648,12 @@ func c07Stampede(r *Result, rng *rand.Rand, tier string) {
 	}
 }
 
+var c07StampedeHung = false
+
 func c07StampedeRun(r *Result, c c07StampedeCase) {
+	if c07StampedeHung {
+		return
+	}
 	namer := schema.NamingStrategy{}
 	bad := 0
 	for rep := 0; rep < c.Reps && bad == 0; rep++ {
@@ -669,7 +674,16 @@ func c07StampedeRun(r *Result, c c07StampedeCase) {
 				ptrs[t] = s
 			}(t)
 		}
-		wg.Wait()
+		done := make(chan struct{})
+		go func() { wg.Wait(); close(done) }()
+		select {
+		case <-done:
+		case <-time.After(20 * time.Second):
+			r.Note("stampede: schema.Parse(%s) from %d goroutines did not finish within 20 s: inconclusive, suite stopped", c07ScTypeNames[c.Type], c.G)
+			r.H("stampede.result", "inconclusive-timeout")
+			c07StampedeHung = true
+			return
+		}
 		r.CorrCompared++
 		for t := 1; t < c.G; t++ {
 			if ptrs[t] != ptrs[0] {
